@@ -30,7 +30,7 @@ func genValueListOver(r *rand.Rand, n int, ifaces bool, uniqueTypedType bool, po
 	for tries := 0; len(out) < n && tries < 60; tries++ {
 		l := Label{Type: pick(r, pool)}
 		if ifaces && r.Intn(6) == 0 {
-			l.Type = nConcrete + r.Intn(2)
+			l.Type = randIface(r)
 		}
 		if allDistinctTypes && anyT[l.Type] {
 			continue
